@@ -325,7 +325,9 @@ CONFIGS = [('alchemy', 'FeedsAB', {'f1': 'alchemy', 'f2': 'alchemy'}),
 
 def reader_statements():
     B = g.TABLES['B']
-    return [g.query(B, [g.col(B, 'i'), g.col(B, 'k')]), g.query(B, [g.alias(g.agg('count', g.col(B, 'i')), 'n')])]
+    above = lambda v: g.query(B, [g.col(B, 'i'), g.col(B, 'k')], where=g.op('gt', g.col(B, 'k'), g.lit(v)))
+    return [g.query(B, [g.col(B, 'i'), g.col(B, 'k')]), g.query(B, [g.alias(g.agg('count', g.col(B, 'i')), 'n')]),
+            above(15), above(35)]
 
 
 def reads_cfg(name, feeds_def, lazy, depth, invariants):
@@ -430,10 +432,11 @@ def reader_level(chk):
         res = chk.tlc('FeedCacheImpl', reads_cfg(name, feeds_def, lazy, depth, ['OwnStorageNow', 'Export']), workers=4,
                       coverage=False)
         hists = res.json_prints()
-        want = sum(7 ** k for k in range(depth + 1)) if len(feeds) == 2 else None
-        if not hists or res.distinct != want or len(hists) != 7 ** depth:
+        alphabet = len(feeds) * len(stmts) + len(feeds) + 1        # reads, mutations, restart
+        want = sum(alphabet ** k for k in range(depth + 1)) if len(feeds) == 2 else None
+        if not hists or res.distinct != want or len(hists) != alphabet ** depth:
             raise tlc.MachineryError(f'FeedCacheImpl({name}): {res.distinct} states / {len(hists)} histories exported, '
-                                     f'expected {want} / {7 ** depth}')
+                                     f'expected {want} / {alphabet ** depth}')
         acts = collections.Counter(a['a'] for h in hists for a in h['hist'])
         for act, label in (('read', 'IRead'), ('mutate', 'IMutate'), ('restart', 'IRestart')):
             if not acts[act]:
@@ -441,6 +444,10 @@ def reader_level(chk):
             chk.coverage[f'FeedCacheImpl.{label}[{name}]'] = (acts[act], acts[act])
         # a history that ends in a read determines all reads of its prefixes: the others add nothing
         hists = [h for h in hists if h['hist'][-1]['a'] == 'read']
+        cap = 450 if chk.quick else 2500        # TLC explored all of them; a seeded sample is replayed on the real feeds
+        if len(hists) > cap:
+            random.Random(chk.seed).shuffle(hists)
+            hists = hists[:cap]
         jobs = [{'id': i, 'feeds': feeds, 'start': {f: k + 1 for k, f in enumerate(feeds)}, 'contents': READER_CONTENTS,
                  'stmts': stmts, 'hist': h['hist']} for i, h in enumerate(hists)]
         t0 = time.time()
